@@ -18,6 +18,7 @@ pub mod c08b;
 pub mod cycle;
 pub mod c11;
 pub mod c10;
+pub mod c16;
 
 use report::{Evidence, Violation};
 
@@ -74,6 +75,7 @@ fn cmd_check(args: &[String]) -> i32 {
         "C08" => check_c08(seed, tier),
         "C11" => check_c11(seed, tier),
         "C10" => check_c10(seed, tier),
+        "C16" => check_c16(seed, tier),
         "C03" => check_cycle(cycle::Which::C03, seed, tier),
         "C04" => check_cycle(cycle::Which::C04, seed, tier),
         other => {
@@ -167,6 +169,25 @@ fn check_c10(seed: u64, tier: &str) -> i32 {
     report::finish(ev, violations)
 }
 
+fn check_c16(seed: u64, tier: &str) -> i32 {
+    let mut ev = Evidence::new(
+        "C16", tier, seed, "exploration",
+        "(A) allocation histories: generated allocating programs (and the corpus) run on the real VM with the real heap writing a real log file, for heap sizes          {0,1,2,16,1024,65536,1048576} MB, against the same run without flags; the log is parsed strictly and compared record by record with the enumerated heap          (append-only, index order = creation order), with the allocation count the generator knows by construction, and with a batch-wide shape->increment table.          (B) `fml run|execute --heap-log PATH [--heap-size N]` as child processes under scripted clocks (steady, stalled, backward/forward jumps, far future, near epoch),          short writes/EINTR on the log fd, nested/absent log directories, and programs that fail part-way, against the same command without flags and the in-process history.          Non-trivial = the program created at least one array/object (A) / the flagged child ran to its end state (B); distinct = distinct (source digest, configuration).",
+    );
+    ev.assumptions = vec![
+        "the heap is append-only, so enumerating indices 0.. gives the creation history".into(),
+        "the shape key (array length; object parent kind, field names, method name/arity/locals/length) is at least as fine as anything an implementation may size by".into(),
+        "a clock before 1970 and I/O errors on the log file are outside the property (the code unwraps them)".into(),
+    ];
+    need_shim();
+    let violations = c16::run(seed, tier, &mut ev);
+    ev.extra.insert("components".into(), serde_json::json!({
+        "real": ["fml parser/compiler", "per-opcode VM via step_with", "Heap (allocate, set_log, set_size) writing a real file", "the unmodified fml CLI run/execute as child processes"],
+        "stub": ["libfmlsim.so: scripted clock_gettime, write() outcomes on the log fd, getrandom"],
+    }));
+    report::finish(ev, violations)
+}
+
 fn cmd_replay(args: &[String]) -> i32 {
     let path = match args.first() {
         Some(p) => p,
@@ -197,6 +218,8 @@ fn cmd_replay(args: &[String]) -> i32 {
         cycle::ENGINE => cycle::replay(&replay),
         c11::ENGINE => { need_shim(); c11::replay(&replay) }
         c10::ENGINE => { need_shim(); c10::replay(&replay) }
+        c16::ENGINE_A => c16::replay_a(&replay),
+        c16::ENGINE_B => { need_shim(); c16::replay_b(&replay) }
         c08b::ENGINE_B => { need_shim(); c08b::replay(&replay) }
         other => Err(format!("unknown engine `{}`", other)),
     };
